@@ -12,7 +12,6 @@ func vSessionOpts(s int) []ExtraOption {
 	return []ExtraOption{
 		MemstoreSizeBytes(vrt.U64(vrt.K("opt", s, "memstore"))),
 		CompactionFileThreshold(vrt.Range(vrt.K("opt", s, "threshold"), 0, 1)),
-		CompactionMaxSizeBytes(vrt.U64(vrt.K("opt", s, "maxsize"))),
 		CompactionRatio(0.2),
 		WriteBufferSizeBytes(64),
 		ReadBufferSizeBytes(64),
@@ -41,6 +40,7 @@ func H_C01_Map() {
 			k := vUniverse[vrt.Choose(vrt.K("key", s), len(vUniverse))]
 			h.del(k)
 		case 2:
+			h.db.compactedMaxSizeBytes = h.chooseMaxSize(vrt.K("maxsize", s))
 			h.compactionCycle()
 		case 3:
 			h.close()
